@@ -327,6 +327,15 @@ def chain(ctx, facts):
         ctx.ob("CHAIN", f"validates-own-index#{k}", ok, f"record id = the position of the item in the enumerated source ({trail})" if ok else f"the record validated after an item is not that item's own position in the enumerated source ({trail})", site_of(b, bb))
         # its result is ?-propagated: the awaited output reaches Try::branch
         has_q = any(F.call_matches(tt, re.compile(r"Try::branch$")) for _, tt in b.calls())
+        if not has_q:
+            # an explicit `match validate_record(..).await { Ok(()) => .., Err(e) => Err(e) }`: no Ok leaves the Err arm
+            from rules.C17 import variant_arms
+            from rules import malsec
+            st_ = flow.settled(b, bb)
+            al_ = flow.local_aliases_fwd(b, st_["out"]) if st_ and st_.get("out") is not None else set()
+            for sw_, pl_, arms_ in variant_arms(b, "std::result::Result", facts):
+                if pl_[0] in al_ and "Err" in arms_ and arms_.get("Ok") != arms_["Err"]:
+                    has_q = not (set(malsec.ok_blocks(b)) & b.reachable(arms_["Err"])) and any(s_["r"]["k"] == "agg" and s_["r"].get("vn") == "Err" for x_ in b.reachable(arms_["Err"]) for s_ in b.stmts(x_) if "r" in s_)
         ctx.ob("CHAIN", f"validation-error-propagates#{k}", has_q, "validate_record result goes through `?`", site_of(b, bb))
     stj = facts.bodies.get("seq_join::seq_try_join_all")
     if stj is None:
